@@ -1069,6 +1069,8 @@ class Executor:
                         else:
                             s2, v2 = copy.deepcopy((st, v))
                         s2.pc.append(c)
+                        if isinstance(v2, tuple) and v2 and v2[0] == "__thunk__":
+                            v2 = v2[1](self, s2, v2[2])
                         if isinstance(v2, tuple) and v2 and v2[0] == "__range_some__":
                             rng = self.deref_value(v2[1])
                             cur = rng.fields[0]
@@ -1160,10 +1162,11 @@ class Executor:
     # which callees to inline: decided by name tables built from the crate's bodies
     def auto_resolve(self, callee, args):
         """`Type::method` / `<Type as Trait>::method` / `module::function` -> unique crate body"""
-        c = self.strip_generics(callee.strip())
-        m = re.match(r"^<(.*?) as .*>::(\w+)$", c)
+        raw = callee.strip()
+        m = re.match(r"^<(.*?) as .*>::(\w+)(?:::<.*>)?$", raw) if raw.startswith("<") else None
+        c = self.strip_generics(raw)
         if m:
-            ty, meth = m.group(1), m.group(2)
+            ty, meth = self.strip_generics(m.group(1)), m.group(2)
         else:
             segs = c.split("::")
             if len(segs) < 2:
